@@ -738,8 +738,7 @@ MALFORMED = {
   "frameRateMultiplier": [("1000", "one-component"), ("1000 0", "zero"), ("0 1001", "zero"), ("a b", "non-numeric"),
                           ("1000/1001", "bad-separator"), ("", "empty")],
   "tickRate": [("0", "zero"), ("abc", "non-numeric"), ("1.5", "fraction"), ("", "empty"), ("-1", "negative")],
-  "ttExtent": [("10px", "one-component"), ("100% 100%", "wrong-unit"), ("abc def", "not-a-length"), ("1920 1080", "no-unit"), ("", "empty"),
-               ("0px 0px", "zero")],
+  "ttExtent": [("10px", "one-component"), ("100% 100%", "wrong-unit"), ("abc def", "not-a-length"), ("1920 1080", "no-unit"), ("", "empty")],
   "activeArea": [("10% 10% 80%", "too-few-components"), ("10px 10px 80px 80px", "wrong-unit"), ("a b c d", "non-numeric"),
                  ("10% 10% 120% 80%", "out-of-range"), ("", "empty")],
   "aspectRatio": [("16", "one-component"), ("16 0", "zero"), ("0 9", "zero"), ("a b", "non-numeric"), ("16:9", "bad-separator"), ("", "empty")],
